@@ -78,9 +78,10 @@ theorem seenBV_small (n : Nat) (t : TInfo) (v : MInt) (hs : v.bits ≤ 64) (hn :
   exact Nat.mod_mod_of_dvd _ (Nat.pow_dvd_pow 2 hn)
 
 
-/-- The six operators whose small path is `setSmall z.bits (x op y)`. -/
+/-- The seven operators whose small path is `setSmall z.bits (x op y)`. -/
 def wrap64 (op : Op) (x y : BitVec 64) : BitVec 64 :=
   match op with
+  | .add => x + y
   | .sub => x - y
   | .mul => x * y
   | .band => x &&& y
@@ -89,7 +90,7 @@ def wrap64 (op : Op) (x y : BitVec 64) : BitVec 64 :=
   | _ => x &&& ~~~y
 
 def Op.isWrap : Op → Bool
-  | .sub | .mul | .band | .bor | .bxor | .bclr => true
+  | .add | .sub | .mul | .band | .bor | .bxor | .bclr => true
   | _ => false
 
 theorem setWidth_sub' {w i : Nat} (x y : BitVec w) (h : i ≤ w) :
@@ -99,6 +100,7 @@ theorem setWidth_sub' {w i : Nat} (x y : BitVec w) (h : i ≤ w) :
 theorem setWidth_wrap64 (op : Op) (hop : op.isWrap = true) (signed : Bool) (x y : BitVec 64) (n cnt : Nat) (hn : n ≤ 64) :
     (wrap64 op x y).setWidth n = circuitOp op signed (x.setWidth n) (y.setWidth n) cnt := by
   cases op <;> simp [Op.isWrap] at hop <;> simp only [wrap64, circuitOp]
+  · exact BitVec.setWidth_add x y hn
   · exact setWidth_sub' x y hn
   · exact BitVec.setWidth_mul x y hn
   · exact BitVec.setWidth_and
@@ -113,7 +115,7 @@ theorem evalBin_wrap (op : Op) (hop : op.isWrap = true) (lt rt : TInfo) (lv rv :
   have hne : lt.bits ≠ 0 := by omega
   have hsm : (({ bits := lt.bits } : MInt).isSmall) = true := by simp [MInt.isSmall, h64]
   cases op <;> simp [Op.isWrap] at hop <;>
-    simp [evalBin, Op.isCmp, Op.isShift, Op.isArith, hk, Mpa.new, hne, liftP, Mpa.sub, Mpa.mul, Mpa.and, Mpa.or,
+    simp [evalBin, Op.isCmp, Op.isShift, Op.isArith, hk, Mpa.new, hne, liftP, Mpa.add, Mpa.sub, Mpa.mul, Mpa.and, Mpa.or,
       Mpa.xor, Mpa.andNot, Mpa.bitwise, hsm, setSmall_eq _ _ h64, wrap64, bind, Except.bind]
 
 
@@ -198,19 +200,6 @@ theorem seen_const_masked (n B : Nat) (t : TInfo) (x : BitVec 64) (hB : B ≤ 64
     · show constSize (MInt.bitLen _) ≤ 64
       rw [hbl]; exact hcs
     · simp only []; split <;> omega
-
-/-! ### `+` -/
-
-theorem evalBin_add (lt rt : TInfo) (lv rv : MInt) (hk : lt.kind = rt.kind) (h0 : 0 < lt.bits) (h64 : lt.bits ≤ 64)
-    (hlv : lv.bits ≤ 64) (hrv : rv.bits ≤ 64) :
-    evalBin .add (.int lt lv) (.int rt rv) =
-      constantMpa { bits := max lv.bits rv.bits, i64 := (lv.small + rv.small) &&& mask (max lv.bits rv.bits),
-                    big := none } (some lt) := by
-  have hne : lt.bits ≠ 0 := by omega
-  have hsm : (({ bits := lt.bits } : MInt).isSmall) = true := by simp [MInt.isSmall, h64]
-  have hm : max lv.bits rv.bits ≤ 64 := by omega
-  simp [evalBin, Op.isCmp, Op.isShift, Op.isArith, hk, Mpa.new, hne, liftP, Mpa.add, hsm, setSmall_eq _ _ hm, bind,
-    Except.bind]
 
 /-! ### shifts -/
 
